@@ -505,6 +505,40 @@ def _walk(est):
     return out
 
 
+def _nested_fit(spec, case, ctx):
+    """fitting a composition works on copies: every component the caller handed over (at any depth) is afterwards what it was before -
+    same objects, same parameters, not fitted, no new attributes"""
+    from vmon.contracts import _params_snapshot, params_changed, _sklearn_composite
+    est = zoo.build(spec)
+    rng = np.random.default_rng([case["pick"], 404])
+    y = zoo.make_series(rng, 36 + case["pick"] % 7, positive=True)
+    before = _params_snapshot(est)
+    walked = [(p, c, _params_snapshot(c), bool(getattr(c, "is_fitted", False)), sorted(vars(c))) for p, _, _, _, c in _walk(est)]
+    try:
+        est.fit(y, fh=[1, 2, 3])
+    except Exception as e:  # noqa
+        from vmon.core import env_signature
+        env = env_signature(e)
+        if env:
+            ctx.env_skip(env)
+        ctx.tag("nested-fit-failed:%s" % type(e).__name__)
+        return
+    after = _params_snapshot(est)
+    changed = params_changed(before, after) if before and after else []
+    if changed and _sklearn_composite(est):
+        changed = []
+    ctx.check("fit.params-unchanged", not changed, "nested:fit:changes-constructor-parameter:%s:%s" % (spec[0], ",".join(changed)),
+              "fit of a composition changed constructor parameter(s) %s" % changed, spec=zoo.describe(spec))
+    for p, c, snap, was_fitted, attrs in walked:
+        now = _params_snapshot(c)
+        ch = params_changed(snap, now) if snap and now else []
+        touched = (bool(getattr(c, "is_fitted", False)) != was_fitted) or sorted(vars(c)) != attrs
+        ctx.check("fit.params-unchanged", not ch and not touched, "nested:fit:component-handed-over-was-%s:%s" % ("fitted" if touched else "reconfigured", type(c).__name__),
+                  "fit of the composition %s the component object the caller passed in (fit has to work on a copy)" % ("fitted / wrote attributes on" if touched else "changed parameters of"),
+                  path=p, spec=zoo.describe(spec), new_attributes=sorted(set(vars(c)) - set(attrs))[:6], changed=ch)
+    ctx.tag("nested-fit")
+
+
 def _nested(case, ctx):
     spec = case["spec"]
     est = zoo.build(spec)
@@ -591,6 +625,7 @@ def _nested(case, ctx):
                 ctx.check("unknown-param", False, "nested:set:stale-component-name-accepted", "a component name that only existed in the replaced list was accepted", name=stale)
     else:
         ctx.seen("nested.replace", 0)
+    _nested_fit(spec, case, ctx)
     ctx.event(spec=zoo.describe(spec), components=len(comps))
     for m in ("nested.set", "nested.replace"):
         ctx.seen(m, 0)
